@@ -567,7 +567,7 @@ def model_reals(model, vars_):
 
 def native(args):
     exe = os.path.join(CACHE, 'native-target', 'debug', 'smtreplay')
-    env = dict(os.environ, CARGO_TARGET_DIR=os.path.join(CACHE, 'native-target'), CARGO_NET_OFFLINE='true')
+    env = dict(os.environ, CARGO_TARGET_DIR=os.path.join(CACHE, 'native-target'), CARGO_NET_OFFLINE='true', RUSTFLAGS='--cfg georust_geo_verif')
     p = subprocess.run(['cargo', 'build', '--offline', '--bin', 'smtreplay'], cwd=os.path.join(VERIF, 'kani'), env=env, stdout=subprocess.PIPE, stderr=subprocess.STDOUT, text=True)
     if p.returncode != 0:
         return None, 'native build failed: ' + p.stdout[-500:]
